@@ -22,6 +22,9 @@ def build_registry() -> Registry:
 
     mbox_c.declare_recovery(reg)
     mbox_c.declare_store(reg)
+    from . import search_c
+
+    search_c.declare_text_keys(reg)
     from ._props import PROPS
 
     for pid, info in PROPS.items():
